@@ -570,6 +570,37 @@ def run_case_local(case):
                         out.fail("relocates" if b is not None else "passthrough", {"extra_recordings": extra, "type": type(x1).__name__},
                                  "exactly the saved recordings, type " + type(x0).__name__,
                                  ({"b": bl} if b is not None else {"side": "load", "shape": first_bad}) | {"why": "extra" if extra else "type"}, None)
+                # ---- load history: the same file loaded again under other directories in the same process must relocate
+                # to the directory of THAT call (a result cached per document, or adapter state kept between calls, shows here)
+                if x1 is not None:
+                    for b2 in ("/second/dir", None):
+                        try:
+                            x2 = io.load(target, audio_dir=b2)
+                        except Exception as e:  # noqa
+                            out.fail("load_history_independent", {"load_raised": exc_repr(e)}, "second load succeeds",
+                                     {"b2": "none" if b2 is None else "abs:str", "why": "load_raised:" + type(e).__name__}, None)
+                            continue
+                        out.transitions += 1
+                        got2 = {}
+                        for u, p in reachable_recordings(x2):
+                            got2.setdefault(u, set()).add(p)
+                        bad = None
+                        for u in uuids:
+                            have = stored.get(u)
+                            if not isinstance(have, str):
+                                continue
+                            if b2 is None:
+                                want2 = M.parts(have)
+                            elif M.is_absolute(have):
+                                continue
+                            else:
+                                want2 = M.join(b2, have)
+                            g2 = sorted(got2.get(u, ()))
+                            if not g2 or any(M.parts(g) != want2 for g in g2):
+                                bad = {"got": g2, "want": "/".join(want2).replace("//", "/") or ".", "first_load_dir": repr(bdir)}
+                                break
+                        out.expect("load_history_independent", bad is None, bad, "paths follow the directory of the second call",
+                                   {"b2": "none" if b2 is None else "abs:str", "why": None if bad is None else "follows_earlier_call"})
                 if klass is None:
                     if lerr is not None and not judged_any:
                         klass = "saved+load_error_unjudged"
